@@ -390,6 +390,9 @@ let rec dec_host (s : string) : hostval =
      | '7' -> let shared = HMapIface [(str_of_string "city", name); (str_of_string "zip", count)] in
               HMapIface [(str_of_string "Name", name); (str_of_string "Count", count); (str_of_string "x", shared);
                          (str_of_string "y", shared); (str_of_string "z", HMapIface [(str_of_string "inner", shared)])]
+     (* a record with methods: methods are not fields *)
+     | '8' -> HStruct [f "Name" name; f "Count" count]
+     | '9' -> HPtr (HStruct [f "Name" name; f "Count" count])
      | _ -> failwith "bad static host value")
   | 'm' | 'o' -> HMapIface []        (* a nil map reads as an empty one *)
   | 'l' | 'y' -> HSlice []           (* a nil slice reads as an empty one *)
